@@ -799,7 +799,7 @@ def probe(ctx):
     rng = np.random.default_rng(ctx.np_seed + 17)
     meas = {}
     kinds = ['complex', 'real', 'basis', 'repeated', 'parallel']
-    nrep = 4 if ctx.quick() else 12
+    nrep = 6 if ctx.quick() else 12
     count = 0
     for dim in PROBE_DIMS:
         N = int(np.prod(dim))
@@ -817,7 +817,7 @@ def probe(ctx):
         H = rng.normal(size=(N, N)) + 1j * rng.normal(size=(N, N)); H = H + H.conj().T
         check_index_layer(ctx, H, dim, 'x'.join(map(str, dim)), rho_desc(H, dim, 'random-hermitian'))
     # pure products with tiny concurrence-type rounding: many two-qubit product mixtures (the NaN of D6 needs c in (0,1e-8))
-    for k in range(600 if ctx.quick() else 6000):
+    for k in range(1500 if ctx.quick() else 6000):
         rho, desc = make_separable(rng, (2, 2), int(rng.integers(1, 9)), 'complex' if k % 3 else 'real')
         ctx.count('probe-2qubit-extra')
         check_state(ctx, rho, (2, 2), f'2qubit-extra/{k}', desc, meas)
@@ -838,7 +838,7 @@ def probe(ctx):
             else:
                 ctx.probe_ok(('gppt-boundary', dim, k))
     # symmetric / bosonic extension SDPs (slow solvers: budgeted)
-    sdp_budget = 25.0 if ctx.quick() else 400.0
+    sdp_budget = 30.0 if ctx.quick() else 600.0
     plan = [((2, 2), 2, False, False), ((2, 2), 2, True, False), ((2, 2), 2, False, True), ((2, 2), 3, False, False), ((2, 2), 3, True, False)]
     if not ctx.quick():
         plan += [((2, 3), 2, False, False), ((2, 3), 2, True, False), ((3, 3), 2, False, False), ((3, 3), 2, True, True), ((2, 2), 3, False, True), ((3, 2), 2, False, False), ((3, 2), 3, True, False), ((2, 3), 3, True, False), ((2, 3), 3, False, False)]
@@ -847,7 +847,7 @@ def probe(ctx):
     import time as _time
     tstart = _time.time()
     for dim, kext, boson, ppt in plan:
-        for j in range(2 if ctx.quick() else 5):
+        for j in range(3 if ctx.quick() else 6):
             if _time.time() - tstart > sdp_budget:
                 break
             rho, desc = make_separable(rng, dim, int(rng.integers(1, 2 * dim[0] * dim[1] + 1)), ['complex', 'basis', 'repeated'][j % 3])
@@ -910,6 +910,12 @@ def search(ctx, hints):
             return
 
 
+def _replay_path():
+    import sys
+    a = sys.argv
+    return a[a.index('--replay') + 1] if '--replay' in a and a.index('--replay') + 1 < len(a) else '(replayed)'
+
+
 def replay(ctx, payload):
     """bin/check C05 --replay file: rebuild the recorded state and run every criterion on it"""
     rp = payload.get('replay', {})
@@ -935,7 +941,7 @@ def replay(ctx, payload):
     hit = [f for f in ctx.failures if f['key'] == payload.get('key')] or ctx.failures
     if hit:
         print(f"replay: {hit[0]['key']} still fails: {hit[0]['what']}")
-        print(f'VIOLATION property={ctx.pid} replay=(replayed)')
+        print(f'VIOLATION property={ctx.pid} replay={_replay_path()}')
         return 1
     print(f"replay: {payload.get('key')} no longer fails")
     return 0
